@@ -303,6 +303,42 @@ pub struct Plan {
     pub plain_logs: bool,
 }
 
+/// Whether every feature, rule and scenario of the plan differs from every other in its name (and no feature
+/// is handed over twice, none is position-less): then an entity is identified by address + name even when
+/// addresses are reused.
+pub fn entities_distinct(plan: &Plan) -> bool {
+    let mut seen = std::collections::BTreeSet::new();
+    let mut handed = std::collections::BTreeSet::new();
+    for it in &plan.items {
+        if let ParserItemKind::Feature(i) = &it.kind {
+            if !handed.insert(*i) {
+                return false;
+            }
+        }
+    }
+    for f in &plan.features {
+        if f.positionless || !seen.insert(format!("F|{}", f.name)) {
+            return false;
+        }
+        for s in &f.scenarios {
+            if !seen.insert(format!("S|{}", s.display.as_deref().unwrap_or(&s.name))) {
+                return false;
+            }
+        }
+        for r in &f.rules {
+            if !seen.insert(format!("R|{}|{}", f.name, r.name)) {
+                return false;
+            }
+            for s in &r.scenarios {
+                if !seen.insert(format!("S|{}", s.display.as_deref().unwrap_or(&s.name))) {
+                    return false;
+                }
+            }
+        }
+    }
+    true
+}
+
 pub const SITE_WORLD: &str = "world";
 
 pub fn site_step(text: &str) -> String {
